@@ -375,6 +375,21 @@ func (r *rewriter) args(call *ast.CallExpr) string {
 }
 
 func (r *rewriter) rewriteCall(call *ast.CallExpr) (string, bool) {
+	// Call-site wrapper: when the package (with the harness overlaid) declares verifWrap_F for a
+	// package-level function F of its own, every call F(...) in a non-harness file becomes
+	// verifWrap_F(...). The wrapper (harness code, same signature) calls the real F and may act on
+	// its result: a hook for objects that the program keeps in local variables (RunRPCServer's
+	// SourceControl). Harness files (zz_verif*) keep calling F itself.
+	if id, ok := call.Fun.(*ast.Ident); ok {
+		if fn, ok := r.info.Uses[id].(*types.Func); ok && fn.Pkg() != nil && fn.Pkg() == r.pkg.Types && fn.Parent() == fn.Pkg().Scope() {
+			wrap := "verifWrap_" + fn.Name()
+			if r.pkg.Types.Scope().Lookup(wrap) != nil && !strings.HasPrefix(filepath.Base(r.fset.Position(call.Pos()).Filename), "zz_verif") {
+				r.note("call-wrap")
+				return wrap + "(" + r.args(call) + ")", true
+			}
+		}
+		return "", false
+	}
 	sel, ok := call.Fun.(*ast.SelectorExpr)
 	if !ok {
 		return "", false
